@@ -3,6 +3,11 @@
 set -u
 cd "$(dirname "$0")"
 export GOFLAGS=-mod=mod GOPROXY=off GOSUMDB=off GOTOOLCHAIN=local CGO_ENABLED=${CGO_ENABLED:-1}
+# The Go module cache of this sandbox lives under /root/go; when HOME is not /root (seen: HOME=/ in a check run)
+# the default GOMODCACHE points at an empty directory and every import would need the network.
+if [ ! -d "$(go1.26.8 env GOMODCACHE 2>/dev/null)/github.com" ] && [ -d /root/go/pkg/mod/github.com ]; then
+  export GOMODCACHE=/root/go/pkg/mod
+fi
 B="${VERIF_BUILD:-$PWD/.build}"
 mkdir -p "$B"
 (cd tools/yieldgen && go1.26.8 build -o "$B/yieldgen" . 2>"$B/build.log") || { cat "$B/build.log" >&2; exit 2; }
